@@ -1,6 +1,13 @@
 import DFV.Lemmas.C15Fld
 import DFV.Lemmas.C15Rat
 import DFV.Lemmas.C15Real
+import DFV.Lemmas.C15Hist
+import DFV.Lemmas.C15Cplx
+import DFV.Lemmas.C15RoundCell
+import DFV.Lemmas.C15Fl64
+import DFV.Lemmas.C15Sqrt64
+import DFV.Lemmas.C15RoundExec
+import DFV.Lemmas.Rounding
 /-!
 # C15 — setting a norm rescales non-zero vectors only; orientation is the unit field
 
@@ -13,10 +20,21 @@ Lengths are compared squared.  `sqrt` is a parameter; the hypothesis `SqrtAt sqr
 actually used.  It is satisfiable: `sqrtQ` (the executable root the driver runs) satisfies
 it at every rational square (`sqrtQ_sqrtAt`), and `Real.sqrt` at every non-negative real
 (`real_sqrtAt`), so the cell-level theorems — stated over an arbitrary linearly ordered
-field `K` — hold for real fields with no side condition (last section).
+field `K` — hold for real fields with no side condition.
 
-Cells, components, targets, thresholds, meshes and specifications are universally
-quantified.
+Sections: one cell (exact arithmetic, any ordered field) · which cells count as zero,
+scalars · whole fields (constant / array / callable norm, getter, orientation, constructor)
+· validity never enters, the getter as a constructor call, a field as norm, histories
+(`run`), acceptance of well-formed programs · the executable model (`sqrtQ`) · real fields
+· complex fields (the `(re, im)` view) · rounded arithmetic (`FlOk fl u`: one rounding
+after every operation; the bounds that justify the 16u / 4u / 8u comparators and the
+oracle's tolerances) over any ordered field, over `ℝ` with `Real.sqrt`, over `Rat` with
+the shared `Rounding` package · binary64 (`fl64` obeys the standard model) · the kernel with a
+rounded root (`SqrtOk`) and its instance `fl64`/`sqrt64`: hypothesis-free theorems about the
+executable kernel that the correspondence run compares bit for bit with NumPy.
+
+Cells, components, targets, thresholds, meshes, masks, specifications and histories are
+universally quantified.
 -/
 namespace DFV.C15
 open DFV
@@ -251,6 +269,121 @@ example : atolDefault < normCell sqrtQ [3, 4] := by
 example : normCell sqrtQ [0, 0] ≤ atolDefault := by
   have h : sqLen ([0, 0] : List Rat) = 0 * 0 := by norm_num [sqLen]
   unfold normCell; rw [h, sqrtQ_mul_self]; norm_num [atolDefault]
+
+/-! ## One cell: which cells count as zero, scalars -/
+section Cell2
+variable {K : Type} [Field K] [LinearOrder K] [IsStrictOrderedRing K]
+
+/-- **which cells count as zero for the orientation**, without a root: exactly those whose
+*squared vector length* is at most `atol²` — the guard is on the length of the cell's
+vector, not on its components -/
+theorem orientCell_zero_iff (sqrt : K → K) (atol : K) (v : List K) (h0 : 0 ≤ atol)
+    (hs : SqrtAt sqrt (sqLen v)) :
+    closeZero atol (normCell sqrt v) = true ↔ sqLen v ≤ atol * atol := by
+  rw [closeZero_eq, decide_eq_true_iff]
+  unfold normCell
+  rw [abs_of_nonneg hs.1]
+  constructor
+  · intro h
+    rw [← hs.2]
+    exact mul_le_mul h h hs.1 h0
+  · intro h
+    by_contra hc
+    have hc' : atol < sqrt (sqLen v) := not_le.mp hc
+    have : atol * atol < sqrt (sqLen v) * sqrt (sqLen v) := mul_lt_mul'' hc' hc' h0 h0
+    rw [hs.2] at this
+    exact absurd h (not_le.mpr this)
+
+/-- **the zero guard is per cell, not per component**: whether a cell is normalised depends on
+the length of its vector only — a cell whose vector is longer than the threshold is
+normalised to unit length even if every single component is below the threshold (example
+below: four components of 6e-9) -/
+theorem orientCell_guard_per_cell (sqrt : K → K) (atol : K) (v : List K) (h0 : 0 ≤ atol)
+    (hs : SqrtAt sqrt (sqLen v)) (hlen : atol * atol < sqLen v) :
+    sqLen (orientCell sqrt atol v) = 1 ∧
+    orientCell sqrt atol v = v.map fun x => x / normCell sqrt v := by
+  have hat : atol < normCell sqrt v := by
+    by_contra hc
+    have := (orientCell_zero_iff sqrt atol v h0 hs).mp (by
+      rw [closeZero_eq, decide_eq_true_iff]; unfold normCell; rw [abs_of_nonneg hs.1]
+      exact not_lt.mp hc)
+    exact absurd this (not_le.mpr hlen)
+  exact ⟨orientCell_unit sqrt atol v h0 hs hat, orientCell_far sqrt atol v hat⟩
+
+/-- **the setter has no threshold**: every cell with some non-zero component — however
+small, also below the orientation's threshold — is rescaled to the target length, while the
+orientation of the same cell is zero (the code guards the setter with `norm != 0.0` and
+the orientation with `np.isclose(norm, 0)`) -/
+theorem setCell_no_threshold (sqrt : K → K) (atol : K) (v : List K) (t : K) (h0 : 0 ≤ atol)
+    (hs : SqrtAt sqrt (sqLen v)) (hex : ∃ x ∈ v, x ≠ 0) (hsmall : sqLen v ≤ atol * atol) :
+    sqLen (setCell sqrt v t) = t * t ∧ orientCell sqrt atol v = zeros v := by
+  obtain ⟨x, hx, hne⟩ := hex
+  have hnz : sqLen v ≠ 0 := fun e => hne ((sqLen_eq_zero_iff v).mp e x hx)
+  refine ⟨setCell_sqLen sqrt v t hs hnz, ?_⟩
+  unfold orientCell
+  rw [(orientCell_zero_iff sqrt atol v h0 hs).mpr hsmall]
+  rfl
+
+/-- **scalar fields**: the setter turns a non-zero scalar `a` into `±t` with the sign of `a` -/
+theorem setCell_scalar (sqrt : K → K) (a t : K) (hs : SqrtAt sqrt (a * a)) (ha : a ≠ 0) :
+    setCell sqrt [a] t = [if 0 < a then t else -t] := by
+  have e : sqLen [a] = a * a := by simp [sqLen]
+  have hs' : SqrtAt sqrt (sqLen [a]) := by rw [e]; exact hs
+  have hnz : sqLen [a] ≠ 0 := by rw [e]; exact mul_self_ne_zero.mpr ha
+  rw [setCell_nonzero sqrt [a] t hs' hnz, e, hs.mul_self]
+  unfold smul
+  simp only [List.map_cons, List.map_nil, List.cons.injEq, and_true]
+  have habs : |a| ≠ 0 := abs_ne_zero.mpr ha
+  split
+  · rename_i hpos
+    rw [abs_of_pos hpos]; field_simp
+  · rename_i hneg
+    have : a < 0 := lt_of_le_of_ne (not_lt.mp hneg) ha
+    rw [abs_of_neg this]; field_simp
+
+/-- **scalar fields**: the orientation of a scalar is its sign above the threshold, zero at or
+below it -/
+theorem orientCell_scalar (sqrt : K → K) (atol a : K) (hs : SqrtAt sqrt (a * a)) (h0 : 0 ≤ atol) :
+    orientCell sqrt atol [a] = [if |a| ≤ atol then 0 else if 0 < a then 1 else -1] := by
+  have e : sqLen [a] = a * a := by simp [sqLen]
+  have hn : normCell sqrt [a] = |a| := by unfold normCell; rw [e, hs.mul_self]
+  by_cases hle : |a| ≤ atol
+  · rw [if_pos hle, orientCell_zero sqrt atol [a] (by rw [hn, abs_abs]; exact hle)]
+    rfl
+  · have hat : atol < normCell sqrt [a] := by rw [hn]; exact not_le.mp hle
+    rw [if_neg hle, orientCell_far sqrt atol [a] hat, hn]
+    simp only [List.map_cons, List.map_nil, List.cons.injEq, and_true]
+    have hapos : 0 < |a| := lt_of_le_of_lt h0 (not_le.mp hle)
+    have ha : a ≠ 0 := abs_pos.mp hapos
+    split
+    · rename_i hpos
+      rw [abs_of_pos hpos]; field_simp
+    · rename_i hneg
+      have : a < 0 := lt_of_le_of_ne (not_lt.mp hneg) ha
+      rw [abs_of_neg this]; field_simp
+
+end Cell2
+
+/-- four components of 6e-9 each: every component is below the threshold 1e-8, the vector
+(length 1.2e-8) is above it -/
+example : (∀ x ∈ ([6/1000000000, 6/1000000000, 6/1000000000, 6/1000000000] : List Rat), |x| ≤ atolDefault) ∧
+    atolDefault * atolDefault < sqLen ([6/1000000000, 6/1000000000, 6/1000000000, 6/1000000000] : List Rat) ∧
+    SqrtAt sqrtQ (sqLen ([6/1000000000, 6/1000000000, 6/1000000000, 6/1000000000] : List Rat)) := by
+  refine ⟨?_, ?_, ?_⟩
+  · intro x hx
+    simp only [List.mem_cons, List.not_mem_nil, or_false, or_self] at hx
+    subst hx
+    rw [abs_of_pos (by norm_num)]; norm_num [atolDefault]
+  · norm_num [sqLen, atolDefault]
+  · have : sqLen ([6/1000000000, 6/1000000000, 6/1000000000, 6/1000000000] : List Rat) =
+        (12/1000000000) * (12/1000000000) := by norm_num [sqLen]
+    rw [this]; exact sqrtQ_sqrtAt _
+/-- a non-zero scalar with a rational root of its square -/
+example : SqrtAt sqrtQ ((-7 : Rat) * (-7)) ∧ (-7 : Rat) ≠ 0 := ⟨sqrtQ_sqrtAt (-7), by norm_num⟩
+/-- a non-zero vector below the orientation's threshold (length 5e-9) -/
+example : (∃ x ∈ ([3/1000000000, 4/1000000000] : List Rat), x ≠ 0) ∧
+    sqLen ([3/1000000000, 4/1000000000] : List Rat) ≤ atolDefault * atolDefault := by
+  refine ⟨⟨3/1000000000, by simp, by norm_num⟩, by norm_num [sqLen, atolDefault]⟩
 
 /-! ## Whole fields (rational model run by the driver) -/
 section Field
@@ -534,6 +667,292 @@ example : ∃ g, mk? sqrtQ atolDefault
       n := [2], bc := "", subs := [] } 2 (.vec [3, 4]) (some (.const 10)) .byNorm none = .ok g :=
   ⟨_, rfl⟩
 
+/-! ## Validity, the getter as a constructor call, fields as norm, histories, acceptance -/
+section Field2
+variable (sqrt : Rat → Rat)
+
+/-- **validity does not enter the norm setter**: the array after `field.norm = s` is the same
+whatever the validity mask of the receiver is — masked cells are rescaled like all others -/
+theorem setNorm_ignores_valid (f g : Fld) (vd : NDA Bool) (s : NSpec)
+    (h : setNorm sqrt f (some s) = .ok g) :
+    ∃ g', setNorm sqrt { f with valid := vd } (some s) = .ok g' ∧ g'.data = g.data ∧ g'.valid = vd := by
+  obtain ⟨t, ht, rfl⟩ := setNorm_some_ok h
+  exact ⟨_, setNorm_of_target (f := { f with valid := vd }) ht, rfl, rfl⟩
+
+/-- … in particular an *invalid* cell with a non-zero vector ends with squared length `t_i²` -/
+theorem setNorm_rescales_invalid (f g : Fld) (s : NSpec) (t : NDA Rat)
+    (ht : asArray1 f.mesh s = .ok t) (h : setNorm sqrt f (some s) = .ok g) (i : List Nat)
+    (hinv : f.valid.get i = false) (hs : SqrtAt sqrt (sqLen (f.data.get i)))
+    (hnz : sqLen (f.data.get i) ≠ 0) :
+    sqLen (g.data.get i) = t.get i * t.get i ∧ g.valid.get i = false := by
+  rw [setNorm_of_target ht] at h
+  simp only [Except.ok.injEq] at h
+  subst h
+  exact ⟨setCell_sqLen sqrt _ _ hs hnz, hinv⟩
+
+/-- **constructor: the validity argument does not influence the array** (`norm=` is applied
+to every cell before `valid=` is looked at) -/
+theorem mk_data_ignores_valid (atol : Rat) (m : Mesh) (nvdim : Nat) (value : VSpec) (s : Option NSpec)
+    (valid valid' : ValidSpec) (unit : Option String) (g g' : Fld)
+    (h : mk? sqrt atol m nvdim value s valid unit = .ok g)
+    (h' : mk? sqrt atol m nvdim value s valid' unit = .ok g') : g'.data = g.data := by
+  obtain ⟨_, a, ha, f1, h1, vd, _, rfl⟩ := mk_ok h
+  obtain ⟨_, a', ha', f1', h1', vd', _, rfl⟩ := mk_ok h'
+  rw [ha] at ha'; cases ha'
+  rw [h1] at h1'; cases h1'
+  rfl
+
+/-- **the norm getter is a constructor call** (`Field(mesh, nvdim=1, value=res, unit=…,
+valid=self.valid)` with `res` the per-cell lengths): on a field whose validity array has the
+mesh's shape that call is accepted and returns exactly `norm` -/
+theorem norm_is_ctor_call (atol : Rat) (f : Fld) (hv : f.valid.shape = f.mesh.n) :
+    mk? sqrt atol f.mesh 1 (.arr ⟨f.mesh.n, fun i => [normCell sqrt (f.data.get i)]⟩) none
+      (.arr f.valid) f.unit = .ok (norm sqrt f) := by
+  unfold mk? updateValues valuesOf setNorm setValid validOf
+  simp [bcastArr_same f.mesh f.valid hv, norm, Fld.defaultVdims, defaultVmap]
+
+/-! ### a field as norm -/
+
+/-- **norm given as a field**: if the assignment is accepted, cell `i` is rescaled to the value
+of the norm field at the cell containing the centre of cell `i` (a centre on a face goes
+to the cell above) -/
+theorem setNorm_field (f g h : Fld) (hm : f.mesh.Inv) (hh : h.mesh.Inv)
+    (hg : setNorm sqrt f (some (.field h)) = .ok g) (i : List Nat)
+    (hi : ∀ a, a < f.mesh.ndim → i.getD a 0 < f.mesh.nAt a)
+    (hs : SqrtAt sqrt (sqLen (f.data.get i))) (h0 : SqrtAt sqrt 0) :
+    Rescaled (f.data.get i) (g.data.get i)
+      ((h.data.get (tab f.mesh.ndim fun a => h.mesh.indexAx a ((f.mesh.centre i).getD a 0))).getD 0 0) := by
+  obtain ⟨t, ht, _⟩ := setNorm_some_ok hg
+  have ht' : fieldAsArray1 f.mesh h = .ok t := ht
+  rw [← fieldAsArray1_get ht' hm hh i hi]
+  exact setNorm_rescaled sqrt f g (.field h) t ht hg i hs h0
+
+/-- a one-component field **on the receiver's own mesh** is always accepted; cell `i` is
+rescaled to that field's value at cell `i` -/
+theorem setNorm_field_same_mesh (f h : Fld) (hm : f.mesh.Inv) (hmesh : h.mesh = f.mesh)
+    (hnv : h.nvdim = 1) :
+    ∃ g, setNorm sqrt f (some (.field h)) = .ok g ∧
+      ∀ i : List Nat, i.length = f.mesh.ndim → (∀ a, a < f.mesh.ndim → i.getD a 0 < f.mesh.nAt a) →
+        SqrtAt sqrt (sqLen (f.data.get i)) → SqrtAt sqrt 0 →
+        Rescaled (f.data.get i) (g.data.get i) ((h.data.get i).getD 0 0) := by
+  obtain ⟨t, ht, _, hget⟩ := fieldAsArray1_same f.mesh h hm hmesh hnv
+  have ht' : asArray1 f.mesh (.field h) = .ok t := ht
+  refine ⟨_, setNorm_of_target ht', fun i hl hi hs h0 => ?_⟩
+  rw [← hget i hl hi]
+  exact setNorm_rescaled sqrt f _ (.field h) t ht' (setNorm_of_target ht') i hs h0
+
+/-- **refusals**: a vector field, or a field whose region does not contain the receiver's,
+is rejected as norm -/
+theorem setNorm_field_rejected (f h : Fld)
+    (hbad : h.nvdim ≠ 1 ∨ h.mesh.region.containsReg f.mesh.region = false) :
+    setNorm sqrt f (some (.field h)) = .error .value := by
+  simp only [setNorm, asArray1, fieldAsArray1]
+  rcases hbad with hb | hb
+  · by_cases hc : h.mesh.region.containsReg f.mesh.region = true
+    · simp [hc, hb]
+    · simp [hc]
+  · simp [hb]
+
+/-- **array-likes: complete acceptance rule** of `_as_array(·, nvdim=1)`: accepted iff the shape
+is the mesh's, or the last axis has length 1 and the shape broadcasts to `(*mesh.n, 1)` -/
+theorem asArray1_arr_ok_iff (m : Mesh) (a : NDA Rat) :
+    (∃ t, asArray1 m (.arr a) = .ok t) ↔
+      a.shape = m.n ∨ (a.shape.getLast? = some 1 ∧ bcastOk a.shape (m.n ++ [1]) = true) := by
+  simp only [asArray1, bcastArr]
+  by_cases h1 : a.shape = m.n
+  · simp [h1]
+  · by_cases h2 : a.shape.getLast? = some 1
+    · by_cases h3 : bcastOk a.shape (m.n ++ [1]) = true
+      · simp [h1, h2, h3]
+      · simp [h1, h2, h3]
+    · simp [h1, h2]
+
+/-! ### histories -/
+
+/-- **frame over histories**: whatever a program of norm assignments, value updates and
+validity assignments does, mesh, component count, unit, labels and mapping stay -/
+theorem run_frame (atol : Rat) (hist : List Step) (f g : Fld) (h : run sqrt atol f hist = .ok g) :
+    g.mesh = f.mesh ∧ g.nvdim = f.nvdim ∧ g.unit = f.unit ∧ g.vdims = f.vdims ∧ g.vmap = f.vmap := by
+  induction hist generalizing f with
+  | nil =>
+    simp only [run, Except.ok.injEq] at h
+    subst h; exact ⟨rfl, rfl, rfl, rfl, rfl⟩
+  | cons s rest ih =>
+    obtain ⟨f1, h1, hr⟩ := run_cons_ok h
+    obtain ⟨a1, a2, a3, a4, a5⟩ := step_frame h1
+    obtain ⟨b1, b2, b3, b4, b5⟩ := ih f1 hr
+    exact ⟨b1.trans a1, b2.trans a2, b3.trans a3, b4.trans a4, b5.trans a5⟩
+
+/-- **later value updates do not re-apply an earlier norm, over every history**: after any
+program — any number of norm assignments among them — `update_field_values(v)` stores
+exactly the array `v` evaluates to on the field's mesh, and leaves the validity as the
+history before it left it -/
+theorem run_update_last (atol : Rat) (hist : List Step) (f g : Fld) (v : VSpec)
+    (h : run sqrt atol f (hist ++ [.update v]) = .ok g) :
+    ∃ a g0, valuesOf f.mesh f.nvdim v = .ok a ∧ g.data = a ∧
+      run sqrt atol f hist = .ok g0 ∧ g.valid = g0.valid := by
+  obtain ⟨g0, h0, h1⟩ := run_append_ok hist [.update v] h
+  obtain ⟨g1, hs, hr⟩ := run_cons_ok h1
+  simp only [run, Except.ok.injEq] at hr
+  subst hr
+  obtain ⟨a, ha, rfl⟩ := updateValues_ok (show updateValues g0 v = .ok g1 from hs)
+  obtain ⟨e1, e2, _⟩ := run_frame sqrt atol hist f g0 h0
+  exact ⟨a, g0, by rw [← e1, ← e2]; exact ha, rfl, h0, rfl⟩
+
+/-- **validity never enters the array, over every history**: deleting all validity
+assignments from a program and starting from any validity mask gives the same array -/
+theorem run_ignores_valid (atol : Rat) (hist : List Step) (f g : Fld) (vd : NDA Bool)
+    (h : run sqrt atol f hist = .ok g) :
+    ∃ g', run sqrt atol { f with valid := vd } (hist.filter fun s => !isSetValid s) = .ok g' ∧
+      g'.data = g.data ∧ g'.valid = vd := by
+  obtain ⟨g', hg', hs⟩ := run_sameArr hist (f := f) (f' := { f with valid := vd }) ⟨rfl, rfl, rfl⟩ h
+  refine ⟨g', hg', hs.2.2.symm, ?_⟩
+  -- no validity assignment is left, so the mask is still `vd`
+  suffices H : ∀ (l : List Step) (f1 g1 : Fld), (∀ s ∈ l, isSetValid s = false) →
+      run sqrt atol f1 l = .ok g1 → g1.valid = f1.valid by
+    exact H _ _ _ (fun s hs => by simpa using (List.mem_filter.mp hs).2) hg'
+  intro l
+  induction l with
+  | nil => intro f1 g1 _ h1; simp only [run, Except.ok.injEq] at h1; subst h1; rfl
+  | cons s rest ih =>
+    intro f1 g1 hall h1
+    obtain ⟨f2, h2, hr⟩ := run_cons_ok h1
+    rw [ih f2 g1 (fun s hs => hall s (List.mem_cons_of_mem _ hs)) hr]
+    exact step_valid_unchanged (hall s List.mem_cons_self) h2
+
+/-- **the constructor is the three-statement history values → norm → validity** on the blank
+field (then the default labels are attached): every theorem about histories speaks about
+`Field(mesh, nvdim, value, norm=…, valid=…)` too -/
+theorem mk_eq_run (atol : Rat) (m : Mesh) (nvdim : Nat) (hn : 1 ≤ nvdim) (value : VSpec)
+    (nrm : Option NSpec) (valid : ValidSpec) (unit : Option String) :
+    mk? sqrt atol m nvdim value nrm valid unit =
+      match run sqrt atol (blank m nvdim unit) [.update value, .setNorm nrm, .setValid valid] with
+      | .error e => .error e
+      | .ok f2 => .ok { f2 with vdims := Fld.defaultVdims nvdim, vmap := defaultVmap nvdim m.region.dims } := by
+  unfold mk?
+  rw [if_neg (by omega)]
+  simp only [run, step, blank]
+  cases updateValues (Fld.mk m nvdim ⟨m.n, fun _ => []⟩ ⟨m.n, fun _ => true⟩ none [] unit) value with
+  | error e => rfl
+  | ok f0 =>
+    simp only
+    cases setNorm sqrt f0 nrm with
+    | error e => rfl
+    | ok f1 =>
+      simp only
+      cases setValid sqrt atol f1 valid with
+      | error e => rfl
+      | ok f2 => rfl
+
+/-- **acceptance over histories**: on a well-formed mesh every program whose statements are
+well-formed for that mesh and component count runs to the end (no hidden refusal) -/
+theorem run_accepts (atol : Rat) (hist : List Step) (f : Fld) (hm : f.mesh.Inv)
+    (hwf : ∀ s ∈ hist, s.WF f.mesh f.nvdim) : ∃ g, run sqrt atol f hist = .ok g := by
+  induction hist generalizing f with
+  | nil => exact ⟨f, rfl⟩
+  | cons s rest ih =>
+    obtain ⟨f1, h1⟩ := step_accepts sqrt atol f hm s (hwf s List.mem_cons_self)
+    obtain ⟨e1, e2, _⟩ := step_frame h1
+    obtain ⟨g, hg⟩ := ih f1 (e1 ▸ hm) fun s hs => by
+      rw [e1, e2]; exact hwf s (List.mem_cons_of_mem _ hs)
+    exact ⟨g, by rw [run_cons_of rest h1]; exact hg⟩
+
+/-- **the constructor accepts every well-formed call**: `nvdim ≥ 1`, values, norm and validity
+well-formed for the mesh -/
+theorem mk_accepts (atol : Rat) (m : Mesh) (hm : m.Inv) (nvdim : Nat) (hn : 1 ≤ nvdim) (value : VSpec)
+    (hv : value.WF m nvdim) (nrm : Option NSpec) (hs : ∀ s, nrm = some s → s.WF m)
+    (valid : ValidSpec) (hvd : valid.WF m) (unit : Option String) :
+    ∃ g, mk? sqrt atol m nvdim value nrm valid unit = .ok g := by
+  obtain ⟨a, ha⟩ := valuesOf_accepts m nvdim value hv
+  unfold mk?
+  rw [if_neg (by omega)]
+  simp only [updateValues, ha]
+  cases nrm with
+  | none =>
+    simp only [setNorm]
+    obtain ⟨vd, hvd'⟩ := validOf_accepts sqrt atol
+      { mesh := m, nvdim := nvdim, data := a, valid := ⟨m.n, fun _ => true⟩, vdims := none, vmap := [],
+        unit := unit } valid hvd
+    simp only [setValid, hvd']
+    exact ⟨_, rfl⟩
+  | some s =>
+    obtain ⟨t, ht⟩ := asArray1_accepts m hm s (hs s rfl)
+    simp only [setNorm, ht]
+    obtain ⟨vd, hvd'⟩ := validOf_accepts sqrt atol
+      { mesh := m, nvdim := nvdim, data := ⟨m.n, fun i => setCell sqrt (a.get i) (t.get i)⟩,
+        valid := ⟨m.n, fun _ => true⟩, vdims := none, vmap := [], unit := unit } valid hvd
+    simp only [setValid, hvd']
+    exact ⟨_, rfl⟩
+
+/-- **refusals of the constructor**, in the order the code checks: `nvdim < 1`; else a value
+vector of the wrong length (that is not a per-cell sequence on a 1-d scalar mesh); else — the
+values being acceptable — a norm array whose shape is not the mesh's and whose last axis is
+not 1, a vector field as norm, or a norm field on a region that does not contain the mesh's -/
+theorem mk_rejected (atol : Rat) (m : Mesh) (nvdim : Nat) (value : VSpec)
+    (nrm : Option NSpec) (valid : ValidSpec) (unit : Option String)
+    (h : nvdim < 1 ∨
+      (∃ v, value = .vec v ∧ v.length ≠ nvdim ∧ ¬(nvdim = 1 ∧ m.n = [v.length])) ∨
+      ((∃ a, valuesOf m nvdim value = .ok a) ∧
+        ((∃ a, nrm = some (.arr a) ∧ a.shape ≠ m.n ∧ a.shape.getLast? ≠ some 1) ∨
+         (∃ hf, nrm = some (.field hf) ∧
+            (hf.nvdim ≠ 1 ∨ hf.mesh.region.containsReg m.region = false))))) :
+    ∃ e, mk? sqrt atol m nvdim value nrm valid unit = .error e := by
+  unfold mk?
+  rcases h with h | h | ⟨⟨a, ha⟩, h⟩
+  · rw [if_pos h]; exact ⟨_, rfl⟩
+  · obtain ⟨v, rfl, hl, hs⟩ := h
+    split
+    · exact ⟨_, rfl⟩
+    · simp only [updateValues, valuesOf, if_neg hs, if_pos hl]
+      exact ⟨_, rfl⟩
+  · split
+    · exact ⟨_, rfl⟩
+    · simp only [updateValues, ha]
+      rcases h with ⟨b, rfl, h1, h2⟩ | ⟨hf, rfl, hbad⟩
+      · have := setNorm_array_rejected sqrt
+          { mesh := m, nvdim := nvdim, data := a, valid := ⟨m.n, fun _ => true⟩, vdims := none, vmap := [],
+            unit := unit } b h1 h2
+        simp only [this]
+        exact ⟨_, rfl⟩
+      · have := setNorm_field_rejected sqrt
+          { mesh := m, nvdim := nvdim, data := a, valid := ⟨m.n, fun _ => true⟩, vdims := none, vmap := [],
+            unit := unit } hf hbad
+        simp only [this]
+        exact ⟨_, rfl⟩
+
+end Field2
+
+/-! ### non-vacuity of the history theorems: a well-formed program on a well-formed mesh -/
+
+example : exMesh.Inv := exMesh_inv
+example : ∀ s ∈ [Step.setNorm (some (.const 2)), .setValid .byNorm, .update (.vec [3, 4]),
+      .setNorm (some (.arr ⟨[2], fun _ => 5⟩)), .setNorm none],
+    s.WF exMesh 2 := by
+  intro s hs
+  simp only [List.mem_cons, List.not_mem_nil, or_false] at hs
+  rcases hs with rfl | rfl | rfl | rfl | rfl
+  · trivial
+  · trivial
+  · rfl
+  · exact Or.inl rfl
+  · trivial
+example : ∃ g, run sqrtQ atolDefault (blank exMesh 2 none)
+    [.update (.vec [3, 4]), .setNorm (some (.const 10)), .setValid .byNorm] = .ok g := ⟨_, rfl⟩
+/-- a field on the same mesh is a well-formed norm -/
+example : (NSpec.field (blank exMesh 1 none)).WF exMesh := ⟨rfl, rfl⟩
+/-- a norm field on a coarser mesh over the same region is accepted (one cell of width 2
+under two cells of width 1) -/
+example : ∃ t, fieldAsArray1 exMesh
+    (blank { exMesh with n := [1] } 1 none) = .ok t := ⟨_, rfl⟩
+example : ({ exMesh with n := [1] } : Mesh).Inv := mesh_inv_of_invB _ (by decide +kernel)
+/-- a vector field as norm meets the refusal hypothesis -/
+example : (blank exMesh 2 none).nvdim ≠ 1 ∨
+    (blank exMesh 2 none).mesh.region.containsReg exMesh.region = false := Or.inl (by decide)
+example : (blank exMesh 3 none).valid.shape = (blank exMesh 3 none).mesh.n := rfl
+example : ∃ g, mk? sqrtQ atolDefault exMesh 2 (.vec [3, 4]) (some (.field (blank exMesh 1 none))) .byNorm none = .ok g :=
+  mk_accepts sqrtQ atolDefault exMesh exMesh_inv 2 (by omega) (.vec [3, 4]) rfl _
+    (fun s hs => by cases hs; exact ⟨rfl, rfl⟩) .byNorm trivial none
+
 /-! ## The executable model itself (`sqrt := sqrtQ`, what the driver runs)
 
 On every cell whose length is rational — all scaled Pythagorean vectors of the
@@ -591,5 +1010,550 @@ theorem real_orientCell_times_norm (atol : ℝ) (h0 : 0 ≤ atol) (v : List ℝ)
   orientCell_times_norm Real.sqrt atol v h0 real_sqrtAt_zero h
 
 end Real
+
+/-! ## Complex fields -/
+section Complex
+variable {K : Type} [Field K] [LinearOrder K] [IsStrictOrderedRing K]
+
+/-- **complex fields are real fields with twice as many components**: the norm of a complex
+cell is the norm of its `(re, im)` view, and the setter and the orientation commute with
+the view — so every theorem above about `setCell`, `normCell`, `orientCell` speaks about
+complex fields as well -/
+theorem complex_view (sqrt : K → K) (atol : K) (v : List (K × K)) (t : K) :
+    cNormCell sqrt v = normCell sqrt (flattenC v) ∧
+    flattenC (cSetCell sqrt v t) = setCell sqrt (flattenC v) t ∧
+    flattenC (cOrientCell sqrt atol v) = orientCell sqrt atol (flattenC v) := by
+  have hn : cNormCell sqrt v = normCell sqrt (flattenC v) := by
+    unfold cNormCell normCell; rw [sqLen_flattenC]
+  refine ⟨hn, ?_, ?_⟩
+  · unfold cSetCell setCell divWhere
+    rw [← hn]
+    have e : (fun z : K × K => cmul z (t, 0)) = fun z => ((fun x => x * t) z.1, (fun x => x * t) z.2) := by
+      funext z; exact cmul_real z t
+    rw [e, flattenC_map (fun x => x * t)]
+    congr 1
+    split
+    · exact flattenC_zeros v
+    · exact flattenC_map (fun x => x / cNormCell sqrt v) v
+  · unfold cOrientCell orientCell
+    rw [← hn]
+    split
+    · exact flattenC_zeros v
+    · exact flattenC_map (fun x => x / cNormCell sqrt v) v
+
+/-- **complex fields, the property's sentence**: a non-zero complex cell ends with
+`Σ|z_c|² = t²`, every component multiplied by the same positive real factor `t/‖v‖`
+(so the phase of every component and the direction are kept); a zero cell stays zero -/
+theorem complex_setCell (sqrt : K → K) (v : List (K × K)) (t : K)
+    (hs : SqrtAt sqrt (cSqLen v)) (h0 : SqrtAt sqrt 0) :
+    (cSqLen v ≠ 0 → cSqLen (cSetCell sqrt v t) = t * t ∧
+      cSetCell sqrt v t = v.map fun z => (t / sqrt (cSqLen v) * z.1, t / sqrt (cSqLen v) * z.2)) ∧
+    (cSqLen v = 0 → cSetCell sqrt v t = v.map fun _ => (0, 0)) := by
+  obtain ⟨_, hset, _⟩ := complex_view sqrt 0 v t
+  constructor
+  · intro hnz
+    have hs' : SqrtAt sqrt (sqLen (flattenC v)) := by rw [sqLen_flattenC]; exact hs
+    have hnz' : sqLen (flattenC v) ≠ 0 := by rw [sqLen_flattenC]; exact hnz
+    refine ⟨?_, ?_⟩
+    · rw [← sqLen_flattenC, hset]; exact setCell_sqLen sqrt _ t hs' hnz'
+    · have hne : cNormCell sqrt v ≠ 0 := fun e => hnz (hs.eq_zero_iff.mp e)
+      unfold cSetCell
+      rw [if_neg hne, List.map_map]
+      apply List.map_congr_left
+      intro z _
+      simp only [Function.comp, cmul_real]
+      unfold cNormCell
+      have : sqrt (cSqLen v) ≠ 0 := hne
+      rw [Prod.mk.injEq]; constructor <;> field_simp
+  · intro hz
+    have hn : cNormCell sqrt v = 0 := by unfold cNormCell; rw [hz]; exact h0.zero
+    unfold cSetCell
+    rw [if_pos hn, List.map_map]
+    apply List.map_congr_left
+    intro z _
+    simp [cmul]
+
+end Complex
+
+/-- the complex cell (3+4i, 0) set to norm 10 is (6+8i, 0) -/
+example : cSetCell sqrtQ [((3 : Rat), (4 : Rat)), (0, 0)] 10 = [(6, 8), (0, 0)] := by
+  have hl : cSqLen [((3 : Rat), (4 : Rat)), (0, 0)] = 5 * 5 := by norm_num [cSqLen]
+  have := (complex_setCell sqrtQ [((3 : Rat), (4 : Rat)), (0, 0)] 10 (by rw [hl]; exact sqrtQ_sqrtAt 5)
+    sqrtQ_zero).1 (by rw [hl]; norm_num)
+  rw [this.2, hl, sqrtQ_mul_self]
+  norm_num
+
+/-! ## Rounded arithmetic: the kernel as the code computes it -/
+section Rounded
+variable {K : Type} [Field K] [LinearOrder K] [IsStrictOrderedRing K]
+
+/-- with `fl := id` the rounded kernel is the exact kernel the driver runs (norm, setter,
+orientation), so the rounded definitions are a conservative extension of the model that
+is tied to the code -/
+theorem flKernel_id (sqrt : K → K) (atol : K) (v : List K) (t : K) :
+    flNormCell id sqrt v = normCell sqrt v ∧ flSetCell id sqrt v t = setCell sqrt v t ∧
+    flOrientCell id sqrt atol v = orientCell sqrt atol v := by
+  have hn : flNormCell id sqrt v = normCell sqrt v := by
+    unfold flNormCell normCell; rw [flSqLen_id]; rfl
+  refine ⟨hn, ?_, ?_⟩
+  · unfold flSetCell setCell divWhere
+    rw [hn]; rfl
+  · unfold flOrientCell orientCell
+    rw [hn]; rfl
+
+/-- **computed norm** (`np.linalg.norm`: rounded squares, rounded sums, rounded root): for
+cells of at most four components it is within `15/4·u` of the length — below the `4u`
+comparator of the correspondence run -/
+theorem flNorm_rel_err (fl sqrt : K → K) (u : K) (h : FlOk fl u) (hu : u ≤ 1 / 1024) (v : List K)
+    (hlen : v.length ≤ 4) (hs : SqrtAt sqrt (sqLen v)) (hs' : SqrtAt sqrt (flSqLen fl v)) :
+    |flNormCell fl sqrt v - normCell sqrt v| ≤ 15 / 4 * u * normCell sqrt v :=
+  flNormCell_err h hu v hlen hs hs'
+
+/-- … and its square is within `8u` of `Σ_c v_c²` (the oracle's bound on the norm getter) -/
+theorem flNorm_sq_err (fl sqrt : K → K) (u : K) (h : FlOk fl u) (hu : u ≤ 1 / 1024) (v : List K)
+    (hlen : v.length ≤ 4) (hs : SqrtAt sqrt (sqLen v)) (hs' : SqrtAt sqrt (flSqLen fl v)) :
+    |flNormCell fl sqrt v * flNormCell fl sqrt v - sqLen v| ≤ 8 * u * sqLen v :=
+  flNormCell_sq_err h hu v hlen hs hs'
+
+/-- **the setter's zero guard survives rounding and is per cell**: the computed norm is zero
+exactly when every component is zero, so a zero cell stays exactly zero and every other
+cell — however small its components — goes through the division -/
+theorem flSetCell_guard (fl sqrt : K → K) (u : K) (h : FlOk fl u) (hu : u ≤ 1 / 1024) (v : List K)
+    (t : K) (hlen : v.length ≤ 4) (hs' : SqrtAt sqrt (flSqLen fl v)) :
+    ((∀ x ∈ v, x = 0) → flSetCell fl sqrt v t = zeros v) ∧
+    ((∃ x ∈ v, x ≠ 0) →
+      flSetCell fl sqrt v t = v.map fun x => fl (fl (x / flNormCell fl sqrt v) * t)) := by
+  have hz := flNormCell_eq_zero_iff (sqrt := sqrt) h hu v hlen hs'
+  constructor
+  · intro hv
+    exact flSetCell_of_eq h t (hz.mpr ((sqLen_eq_zero_iff v).mpr hv))
+  · rintro ⟨x, hx, hne⟩
+    exact flSetCell_of_ne t fun e => hne ((sqLen_eq_zero_iff v).mp (hz.mp e) x hx)
+
+/-- **computed setter, per component**: every component of a non-zero cell is within `6u` of
+the exact `(t/‖v‖)·v_c` — below the `16u` comparator -/
+theorem flSetCell_comp_err (fl sqrt : K → K) (u : K) (h : FlOk fl u) (hu : u ≤ 1 / 1024) (v : List K)
+    (t : K) (hlen : v.length ≤ 4) (hs : SqrtAt sqrt (sqLen v)) (hs' : SqrtAt sqrt (flSqLen fl v))
+    (hnz : sqLen v ≠ 0) :
+    ∃ f : K → K, flSetCell fl sqrt v t = v.map f ∧
+      ∀ x, |f x - t / normCell sqrt v * x| ≤ 6 * u * |t / normCell sqrt v * x| := by
+  have hne : flNormCell fl sqrt v ≠ 0 := fun e =>
+    hnz ((flNormCell_eq_zero_iff (sqrt := sqrt) h hu v hlen hs').mp e)
+  refine ⟨_, flSetCell_of_ne t hne, fun x => ?_⟩
+  exact (quot_mul_err h hu (hs.pos hnz) (flNormCell_err h hu v hlen hs hs') x t).2
+
+/-- **computed setter, length**: the squared length of the result is within `13u` of `t²`
+(oracle bound `16u`) -/
+theorem flSetCell_sqLen_err (fl sqrt : K → K) (u : K) (h : FlOk fl u) (hu : u ≤ 1 / 1024)
+    (v : List K) (t : K) (hlen : v.length ≤ 4) (hs : SqrtAt sqrt (sqLen v))
+    (hs' : SqrtAt sqrt (flSqLen fl v)) (hnz : sqLen v ≠ 0) :
+    |sqLen (flSetCell fl sqrt v t) - t * t| ≤ 13 * u * (t * t) := by
+  obtain ⟨f, hf, herr⟩ := flSetCell_comp_err fl sqrt u h hu v t hlen hs hs' hnz
+  have hu0 := h.1
+  have hb : normCell sqrt v ≠ 0 := fun e => hnz (hs.eq_zero_iff.mp e)
+  have key := sqLen_map_err f (t / normCell sqrt v) (6 * u) (by linarith) v fun x _ => herr x
+  have e : t / normCell sqrt v * (t / normCell sqrt v) * sqLen v = t * t := by
+    have hb2 : sqLen v = normCell sqrt v * normCell sqrt v := hs.2.symm
+    rw [hb2]; field_simp
+  rw [e] at key
+  rw [hf]
+  have : 2 * (6 * u) + 6 * u * (6 * u) ≤ 13 * u := by nlinarith
+  have := mul_le_mul_of_nonneg_right this (mul_self_nonneg t)
+  linarith
+
+/-- **computed setter, direction**: every 2×2 cross term between the result `w` and the old
+vector satisfies `|w_a v_b − w_b v_a|·(1 − 6u) ≤ 12u·|w_a v_b|` (so it is below the oracle's
+`16u·max(|w_a v_b|, |w_b v_a|)`) -/
+theorem flSetCell_cross_err (fl sqrt : K → K) (u : K) (h : FlOk fl u) (hu : u ≤ 1 / 1024)
+    (v : List K) (t : K) (hlen : v.length ≤ 4) (hs : SqrtAt sqrt (sqLen v))
+    (hs' : SqrtAt sqrt (flSqLen fl v)) (hnz : sqLen v ≠ 0) (a b : Nat) (ha : a < v.length) :
+    |(flSetCell fl sqrt v t).getD a 0 * v.getD b 0 - (flSetCell fl sqrt v t).getD b 0 * v.getD a 0|
+        * (1 - 6 * u) ≤ 12 * u * |(flSetCell fl sqrt v t).getD a 0 * v.getD b 0| := by
+  obtain ⟨f, hf, herr⟩ := flSetCell_comp_err fl sqrt u h hu v t hlen hs hs' hnz
+  have hu0 := h.1
+  rw [hf]
+  have c1 := cross_err f (t / normCell sqrt v) (6 * u) v (fun x _ => herr x) a b
+  have c2 := cross_low f (t / normCell sqrt v) (6 * u) v (fun x _ => herr x) a b ha
+  have h1 : (0 : K) ≤ 1 - 6 * u := by linarith
+  have := mul_le_mul_of_nonneg_right c1 h1
+  nlinarith
+
+/-- **computed setter, sense**: for a positive target the result has a positive dot product
+with the old vector -/
+theorem flSetCell_dot_pos (fl sqrt : K → K) (u : K) (h : FlOk fl u) (hu : u ≤ 1 / 1024)
+    (v : List K) (t : K) (hlen : v.length ≤ 4) (hs : SqrtAt sqrt (sqLen v))
+    (hs' : SqrtAt sqrt (flSqLen fl v)) (hnz : sqLen v ≠ 0) (ht : 0 < t) :
+    0 < dot (flSetCell fl sqrt v t) v := by
+  obtain ⟨f, hf, herr⟩ := flSetCell_comp_err fl sqrt u h hu v t hlen hs hs' hnz
+  have hu0 := h.1
+  rw [hf]
+  have hlam : 0 < t / normCell sqrt v := div_pos ht (hs.pos hnz)
+  have := dot_map_low f (t / normCell sqrt v) (6 * u) hlam.le v fun x _ => herr x
+  have hS : 0 < sqLen v := lt_of_le_of_ne (sqLen_nonneg v) (Ne.symm hnz)
+  have : 0 < (1 - 6 * u) * (t / normCell sqrt v * sqLen v) :=
+    mul_pos (by linarith) (mul_pos hlam hS)
+  linarith
+
+/-- a zero target gives an exactly zero cell in rounded arithmetic too -/
+theorem flSetCell_target_zero (fl sqrt : K → K) (u : K) (h : FlOk fl u) (v : List K) :
+    flSetCell fl sqrt v 0 = zeros v := by
+  have e : ∀ w : List K, w.map (fun x => fl (x * 0)) = List.replicate w.length 0 := by
+    intro w; simp [h.zero]
+  unfold flSetCell
+  rw [e]
+  split <;> simp [zeros]
+
+/-- **computed orientation** above the threshold: every component within `39/8·u` of
+`v_c/‖v‖` (comparator `8u`), squared length within `10u` of 1 (oracle `16u`), and
+`orientation × computed norm` within **one** rounding of the field (oracle `8u`) -/
+theorem flOrientCell_err (fl sqrt : K → K) (u atol : K) (h : FlOk fl u) (hu : u ≤ 1 / 1024)
+    (v : List K) (hlen : v.length ≤ 4) (hs : SqrtAt sqrt (sqLen v))
+    (hs' : SqrtAt sqrt (flSqLen fl v)) (h0 : 0 ≤ atol) (hat : atol < flNormCell fl sqrt v) :
+    ∃ f : K → K, flOrientCell fl sqrt atol v = v.map f ∧
+      (∀ x, |f x - x / normCell sqrt v| ≤ 39 / 8 * u * |x / normCell sqrt v|) ∧
+      |sqLen (flOrientCell fl sqrt atol v) - 1| ≤ 10 * u ∧
+      ∀ x, |f x * flNormCell fl sqrt v - x| ≤ u * |x| := by
+  have hu0 := h.1
+  have hnpos : 0 < flNormCell fl sqrt v := lt_of_le_of_lt h0 hat
+  have hnz : sqLen v ≠ 0 := fun e =>
+    hnpos.ne' ((flNormCell_eq_zero_iff (sqrt := sqrt) h hu v hlen hs').mpr e)
+  have hcz : closeZero atol (flNormCell fl sqrt v) = false := by
+    rw [closeZero_eq, decide_eq_false_iff_not, not_le, abs_of_pos hnpos]; exact hat
+  have hf : flOrientCell fl sqrt atol v = v.map fun x => fl (x / flNormCell fl sqrt v) := by
+    unfold flOrientCell; rw [hcz]; rfl
+  have herr : ∀ x, |fl (x / flNormCell fl sqrt v) - x / normCell sqrt v| ≤
+      39 / 8 * u * |x / normCell sqrt v| := fun x =>
+    (quot_mul_err h hu (hs.pos hnz) (flNormCell_err h hu v hlen hs hs') x 1).1
+  refine ⟨_, hf, herr, ?_, fun x => quot_times_err h hnpos.ne' x⟩
+  have hb : normCell sqrt v ≠ 0 := fun e => hnz (hs.eq_zero_iff.mp e)
+  have key := sqLen_map_err (fun x => fl (x / flNormCell fl sqrt v)) (1 / normCell sqrt v)
+    (39 / 8 * u) (by linarith) v fun x _ => by
+      have e1 : 1 / normCell sqrt v * x = x / normCell sqrt v := by ring
+      rw [e1]; exact herr x
+  have e : 1 / normCell sqrt v * (1 / normCell sqrt v) * sqLen v = 1 := by
+    have hb2 : sqLen v = normCell sqrt v * normCell sqrt v := hs.2.symm
+    rw [hb2]; field_simp
+  rw [e] at key
+  rw [hf]
+  have : 2 * (39 / 8 * u) + 39 / 8 * u * (39 / 8 * u) ≤ 10 * u := by nlinarith
+  linarith
+
+/-- **the orientation's guard under rounding**: a cell whose length is at most
+`atol/(1 + 15/4·u)` is zeroed, a cell whose length exceeds `atol/(1 − 15/4·u)` is
+normalised; only lengths inside that band of relative width `≈ 7.5u` can go either way
+(the harness leaves a band of `64u`) -/
+theorem flOrientCell_band (fl sqrt : K → K) (u atol : K) (h : FlOk fl u) (hu : u ≤ 1 / 1024)
+    (v : List K) (hlen : v.length ≤ 4) (hs : SqrtAt sqrt (sqLen v))
+    (hs' : SqrtAt sqrt (flSqLen fl v)) :
+    (normCell sqrt v * (1 + 15 / 4 * u) ≤ atol → flOrientCell fl sqrt atol v = zeros v) ∧
+    (atol < normCell sqrt v * (1 - 15 / 4 * u) →
+      flOrientCell fl sqrt atol v = v.map fun x => fl (x / flNormCell fl sqrt v)) := by
+  have herr := abs_le.mp (flNormCell_err h hu v hlen hs hs')
+  have hu0 := h.1
+  have hn0 : 0 ≤ flNormCell fl sqrt v := h.nonneg (by linarith) hs'.1
+  constructor
+  · intro hle
+    unfold flOrientCell
+    have : closeZero atol (flNormCell fl sqrt v) = true := by
+      rw [closeZero_eq, decide_eq_true_iff, abs_of_nonneg hn0]; linarith [herr.2]
+    rw [this]; rfl
+  · intro hlt
+    unfold flOrientCell
+    have : closeZero atol (flNormCell fl sqrt v) = false := by
+      rw [closeZero_eq, decide_eq_false_iff_not, not_le, abs_of_nonneg hn0]; linarith [herr.1]
+    rw [this]; rfl
+
+end Rounded
+
+/-! ### the rounded kernel over the reals (`Real.sqrt`, no side condition) and over `Rat`
+with the shared `Rounding` package -/
+section RoundedInst
+
+/-- **real fields, any rounding that obeys the standard model with `u ≤ 2^-10`**: the setter's
+result on a non-zero cell of at most four components has squared length within `13u` of
+`t²`, every cross term with the old vector is relatively below `12u/(1−6u)`, and for a
+positive target the dot product with the old vector is positive — no hypothesis on roots -/
+theorem real_flSetCell (fl : ℝ → ℝ) (u : ℝ) (h : FlOk fl u) (hu : u ≤ 1 / 1024) (v : List ℝ) (t : ℝ)
+    (hlen : v.length ≤ 4) (hnz : sqLen v ≠ 0) :
+    |sqLen (flSetCell fl Real.sqrt v t) - t * t| ≤ 13 * u * (t * t) ∧
+    (∀ a b : Nat, a < v.length →
+      |(flSetCell fl Real.sqrt v t).getD a 0 * v.getD b 0 - (flSetCell fl Real.sqrt v t).getD b 0 * v.getD a 0|
+        * (1 - 6 * u) ≤ 12 * u * |(flSetCell fl Real.sqrt v t).getD a 0 * v.getD b 0|) ∧
+    (0 < t → 0 < dot (flSetCell fl Real.sqrt v t) v) := by
+  have hs := real_sqrtAt_sqLen v
+  have hs' : SqrtAt Real.sqrt (flSqLen fl v) :=
+    real_sqrtAt (flSqLen_nonneg h (by linarith) v)
+  exact ⟨flSetCell_sqLen_err fl _ u h hu v t hlen hs hs' hnz,
+    fun a b ha => flSetCell_cross_err fl _ u h hu v t hlen hs hs' hnz a b ha,
+    fun ht => flSetCell_dot_pos fl _ u h hu v t hlen hs hs' hnz ht⟩
+
+/-- real fields: the computed norm is within `15/4·u` of the Euclidean length and its square
+within `8u` of the sum of squares -/
+theorem real_flNorm (fl : ℝ → ℝ) (u : ℝ) (h : FlOk fl u) (hu : u ≤ 1 / 1024) (v : List ℝ)
+    (hlen : v.length ≤ 4) :
+    |flNormCell fl Real.sqrt v - Real.sqrt (sqLen v)| ≤ 15 / 4 * u * Real.sqrt (sqLen v) ∧
+    |flNormCell fl Real.sqrt v * flNormCell fl Real.sqrt v - sqLen v| ≤ 8 * u * sqLen v := by
+  have hs := real_sqrtAt_sqLen v
+  have hs' : SqrtAt Real.sqrt (flSqLen fl v) :=
+    real_sqrtAt (flSqLen_nonneg h (by linarith) v)
+  exact ⟨flNorm_rel_err fl _ u h hu v hlen hs hs', flNorm_sq_err fl _ u h hu v hlen hs hs'⟩
+
+/-- real fields: the computed orientation above the threshold has squared length within `10u`
+of 1 and, multiplied with the computed norm, reproduces every component within one rounding -/
+theorem real_flOrientCell (fl : ℝ → ℝ) (u atol : ℝ) (h : FlOk fl u) (hu : u ≤ 1 / 1024) (v : List ℝ)
+    (hlen : v.length ≤ 4) (h0 : 0 ≤ atol) (hat : atol < flNormCell fl Real.sqrt v) :
+    |sqLen (flOrientCell fl Real.sqrt atol v) - 1| ≤ 10 * u ∧
+    ∀ a : Nat, |(flOrientCell fl Real.sqrt atol v).getD a 0 * flNormCell fl Real.sqrt v - v.getD a 0| ≤
+      u * |v.getD a 0| := by
+  have hs := real_sqrtAt_sqLen v
+  have hs' : SqrtAt Real.sqrt (flSqLen fl v) :=
+    real_sqrtAt (flSqLen_nonneg h (by linarith) v)
+  obtain ⟨f, hf, _, h2, h3⟩ := flOrientCell_err fl _ u atol h hu v hlen hs hs' h0 hat
+  refine ⟨h2, fun a => ?_⟩
+  rw [hf, getD_map_zero]
+  split
+  · exact h3 _
+  · rename_i hge
+    have : v.getD a 0 = 0 := by simp [List.getD_eq_getElem?_getD, not_lt.mp hge]
+    rw [this]; simp
+
+/-- the shared hypothesis package `C01.Rounding` (`Lemmas/Rounding.lean`) is an instance of
+the standard model used here -/
+theorem rounding_flOk (R : C01.Rounding) : FlOk R.fl R.u := ⟨R.u_nonneg, R.err⟩
+
+/-- **rational model with a `Rounding`**: the bounds that justify the harness comparators —
+computed norm within `15/4·u` (comparator `4u`), every component of the setter's result
+within `6u` of the exact model's (comparator `16u`), squared length within `13u` of `t²`
+(oracle `16u`) -/
+theorem rounding_flSetCell (R : C01.Rounding) (hu : R.u ≤ 1 / 1024) (sqrt : Rat → Rat) (v : List Rat)
+    (t : Rat) (hlen : v.length ≤ 4) (hs : SqrtAt sqrt (sqLen v)) (hs' : SqrtAt sqrt (flSqLen R.fl v))
+    (hnz : sqLen v ≠ 0) :
+    |flNormCell R.fl sqrt v - normCell sqrt v| ≤ 15 / 4 * R.u * normCell sqrt v ∧
+    (∀ a : Nat, |(flSetCell R.fl sqrt v t).getD a 0 - (setCell sqrt v t).getD a 0| ≤
+      6 * R.u * |(setCell sqrt v t).getD a 0|) ∧
+    |sqLen (flSetCell R.fl sqrt v t) - t * t| ≤ 13 * R.u * (t * t) := by
+  have h := rounding_flOk R
+  refine ⟨flNorm_rel_err R.fl sqrt R.u h hu v hlen hs hs', fun a => ?_,
+    flSetCell_sqLen_err R.fl sqrt R.u h hu v t hlen hs hs' hnz⟩
+  obtain ⟨f, hf, herr⟩ := flSetCell_comp_err R.fl sqrt R.u h hu v t hlen hs hs' hnz
+  rw [hf, setCell_nonzero sqrt v t hs hnz, smul_getD, getD_map_zero]
+  split
+  · exact herr _
+  · rename_i hge
+    have : v.getD a 0 = 0 := by simp [List.getD_eq_getElem?_getD, not_lt.mp hge]
+    rw [this]; simp
+
+end RoundedInst
+
+/-! non-vacuity: a rounding that is not the identity obeys the standard model over `ℝ`; the
+identity rounding is a `Rounding` over `Rat` for which the root hypotheses hold on (3,4) -/
+example : FlOk (fun x : ℝ => x * (1 + 1 / 2048)) (1 / 1024) := by
+  refine ⟨by norm_num, fun x => ?_⟩
+  have : x * (1 + 1 / 2048) - x = x * (1 / 2048) := by ring
+  rw [this, abs_mul, abs_of_pos (by norm_num : (0 : ℝ) < 1 / 2048)]
+  nlinarith [abs_nonneg x]
+example : ∃ R : C01.Rounding, R.u ≤ 1 / 1024 ∧ SqrtAt sqrtQ (flSqLen R.fl ([3, 4] : List Rat)) ∧
+    SqrtAt sqrtQ (sqLen ([3, 4] : List Rat)) ∧ sqLen ([3, 4] : List Rat) ≠ 0 := by
+  refine ⟨⟨id, 0, le_rfl, by norm_num, fun x => by simp⟩, by norm_num, ?_, ?_, by norm_num [sqLen]⟩
+  · rw [flSqLen_id]
+    have h : sqLen ([3, 4] : List Rat) = 5 * 5 := by norm_num [sqLen]
+    rw [h]; exact sqrtQ_sqrtAt 5
+  · have h : sqLen ([3, 4] : List Rat) = 5 * 5 := by norm_num [sqLen]
+    rw [h]; exact sqrtQ_sqrtAt 5
+
+/-! ## binary64: the rounding the driver runs and the harness compares bit for bit with NumPy -/
+section Binary64
+
+/-- **the rounding hypothesis is met by the executable binary64 rounding** `fl64` (round to
+nearest even, 53 bits): `|fl64 x − x| ≤ 2^-53·|x|` for every rational `x` -/
+theorem fl64_standard_model : FlOk fl64 (1 / 9007199254740992) := fl64_flOk
+
+/-- … so the shared hypothesis package `Rounding` is inhabited by the function the
+correspondence run checks against NumPy's arithmetic -/
+theorem fl64_rounding : ∃ R : C01.Rounding, R.fl = fl64 ∧ R.u = 1 / 9007199254740992 ∧ R.u ≤ 1 / 1024 :=
+  ⟨⟨fl64, 1 / 9007199254740992, by norm_num, by norm_num, fl64_flOk.2⟩, rfl, rfl, by norm_num⟩
+
+/-- **the bounds for the kernel the driver runs with binary64 rounding** (`fl_cells`, compared
+bit for bit with `Field.norm` / the norm setter on arbitrary binary64 vectors): with an exact
+root at the two radicands, computed norm within `15/4·2^-53`, every component of the setter's
+result within `6·2^-53` of the exact model's, squared length within `13·2^-53` of `t²` -/
+theorem fl64_setCell_bounds (sqrt : Rat → Rat) (v : List Rat) (t : Rat) (hlen : v.length ≤ 4)
+    (hs : SqrtAt sqrt (sqLen v)) (hs' : SqrtAt sqrt (flSqLen fl64 v)) (hnz : sqLen v ≠ 0) :
+    |flNormCell fl64 sqrt v - normCell sqrt v| ≤ 15 / 4 * (1 / 9007199254740992) * normCell sqrt v ∧
+    (∀ a : Nat, |(flSetCell fl64 sqrt v t).getD a 0 - (setCell sqrt v t).getD a 0| ≤
+      6 * (1 / 9007199254740992) * |(setCell sqrt v t).getD a 0|) ∧
+    |sqLen (flSetCell fl64 sqrt v t) - t * t| ≤ 13 * (1 / 9007199254740992) * (t * t) :=
+  rounding_flSetCell ⟨fl64, 1 / 9007199254740992, by norm_num, by norm_num, fl64_flOk.2⟩ (by norm_num)
+    sqrt v t hlen hs hs' hnz
+
+end Binary64
+
+/-! non-vacuity: on (3,4) the binary64 kernel is exact, so both root hypotheses hold with `sqrtQ` -/
+example : flSqLen fl64 ([3, 4] : List Rat) = 5 * 5 := by decide +kernel
+example : SqrtAt sqrtQ (flSqLen fl64 ([3, 4] : List Rat)) := by
+  have h : flSqLen fl64 ([3, 4] : List Rat) = 5 * 5 := by decide +kernel
+  rw [h]; exact sqrtQ_sqrtAt 5
+example : flSetCell fl64 sqrtQ ([3, 4] : List Rat) 10 = [6, 8] := by decide +kernel
+/-- and it does round: 1/3 is not representable -/
+example : fl64 (1 / 3) = 6004799503160661 / 18014398509481984 := by decide +kernel
+
+/-! ## The kernel with a rounded root: nothing but the rounding contracts is assumed -/
+section Exec
+variable {K : Type} [Field K] [LinearOrder K] [IsStrictOrderedRing K]
+
+/-- **computed norm with a rounded root** (`SqrtOk`: the root's square within `2u + 3u²` of the
+radicand): non-negative, its square within `10u` of `Σ_c v_c²`, zero exactly on zero cells —
+no exact root is assumed anywhere -/
+theorem flNorm_exec (fl sq : K → K) (u : K) (h : FlOk fl u) (hq : SqrtOk sq u) (hu : u ≤ 1 / 1024)
+    (v : List K) (hlen : v.length ≤ 4) :
+    0 ≤ flNormCell fl sq v ∧
+    |flNormCell fl sq v * flNormCell fl sq v - sqLen v| ≤ 10 * u * sqLen v ∧
+    (flNormCell fl sq v = 0 ↔ ∀ x ∈ v, x = 0) := by
+  obtain ⟨h1, h2, h3⟩ := flNormCell_exec h hq hu v hlen
+  exact ⟨h1, h2, h3.trans (sqLen_eq_zero_iff v)⟩
+
+/-- **computed setter with a rounded root**: a zero cell stays exactly zero; on every other
+cell the squared length of the result is within `15u` of `t²` (oracle `16u`), every cross
+term with the old vector is relatively below `17/4·u/(1 − 17/8·u)`, and for a positive
+target the dot product with the old vector is positive -/
+theorem flSetCell_exec (fl sq : K → K) (u : K) (h : FlOk fl u) (hq : SqrtOk sq u) (hu : u ≤ 1 / 1024)
+    (v : List K) (t : K) (hlen : v.length ≤ 4) :
+    ((∀ x ∈ v, x = 0) → flSetCell fl sq v t = zeros v) ∧
+    (sqLen v ≠ 0 →
+      |sqLen (flSetCell fl sq v t) - t * t| ≤ 15 * u * (t * t) ∧
+      (∀ a b : Nat, a < v.length →
+        |(flSetCell fl sq v t).getD a 0 * v.getD b 0 - (flSetCell fl sq v t).getD b 0 * v.getD a 0|
+          * (1 - 17 / 8 * u) ≤ 17 / 4 * u * |(flSetCell fl sq v t).getD a 0 * v.getD b 0|) ∧
+      (0 < t → 0 < dot (flSetCell fl sq v t) v)) := by
+  obtain ⟨hn0, hnsq, hnz⟩ := flNormCell_exec h hq hu v hlen
+  have hu0 := h.1
+  constructor
+  · intro hv
+    exact flSetCell_of_eq h t (hnz.mpr ((sqLen_eq_zero_iff v).mpr hv))
+  · intro hS
+    have hne : flNormCell fl sq v ≠ 0 := fun e => hS (hnz.mp e)
+    have hnpos : 0 < flNormCell fl sq v := lt_of_le_of_ne hn0 (Ne.symm hne)
+    have hSpos : 0 < sqLen v := lt_of_le_of_ne (sqLen_nonneg v) (Ne.symm hS)
+    rw [flSetCell_of_ne t hne]
+    set n := flNormCell fl sq v with hn
+    have herr : ∀ x, |fl (fl (x / n) * t) - t / n * x| ≤ 17 / 8 * u * |t / n * x| := fun x =>
+      (quot_mul_exec h hu n x t).2
+    refine ⟨?_, fun a b ha => ?_, fun ht => ?_⟩
+    · have key := sqLen_map_err (fun x => fl (fl (x / n) * t)) (t / n) (17 / 8 * u) (by linarith) v
+        fun x _ => herr x
+      have hq1 := ratio_err hu0 hu hSpos hnpos hnsq
+      have e : t / n * (t / n) * sqLen v = t * t * (sqLen v / (n * n)) := by field_simp
+      rw [e] at key
+      set q := sqLen v / (n * n) with hqdef
+      have hqb := abs_le.mp hq1
+      have htt := mul_self_nonneg t
+      have hq0 : 0 ≤ q := div_nonneg hSpos.le (mul_pos hnpos hnpos).le
+      have hρ : 2 * (17 / 8 * u) + 17 / 8 * u * (17 / 8 * u) ≤ 43 / 10 * u := by nlinarith
+      have hk : |sqLen (v.map fun x => fl (fl (x / n) * t)) - t * t * q| ≤ 43 / 10 * u * (t * t * q) :=
+        le_trans key (mul_le_mul_of_nonneg_right hρ (mul_nonneg htt hq0))
+      have hk2 : 43 / 10 * u * (t * t * q) ≤ 19 / 4 * u * (t * t) := by
+        have : 43 / 10 * u * q ≤ 19 / 4 * u := by nlinarith
+        nlinarith
+      have hk3 : |t * t * q - t * t| ≤ 41 / 4 * u * (t * t) := by
+        have : t * t * q - t * t = t * t * (q - 1) := by ring
+        rw [this, abs_mul, abs_of_nonneg htt, mul_comm]
+        exact mul_le_mul_of_nonneg_right hq1 htt
+      have e2 : sqLen (v.map fun x => fl (fl (x / n) * t)) - t * t =
+          (sqLen (v.map fun x => fl (fl (x / n) * t)) - t * t * q) + (t * t * q - t * t) := by ring
+      rw [e2]
+      have := abs_add_le (sqLen (v.map fun x => fl (fl (x / n) * t)) - t * t * q) (t * t * q - t * t)
+      linarith
+    · have c1 := cross_err (fun x => fl (fl (x / n) * t)) (t / n) (17 / 8 * u) v (fun x _ => herr x) a b
+      have c2 := cross_low (fun x => fl (fl (x / n) * t)) (t / n) (17 / 8 * u) v (fun x _ => herr x) a b ha
+      have h1 : (0 : K) ≤ 1 - 17 / 8 * u := by linarith
+      have := mul_le_mul_of_nonneg_right c1 h1
+      nlinarith
+    · have hlam : 0 < t / n := div_pos ht hnpos
+      have := dot_map_low (fun x => fl (fl (x / n) * t)) (t / n) (17 / 8 * u) hlam.le v fun x _ => herr x
+      have : 0 < (1 - 17 / 8 * u) * (t / n * sqLen v) := mul_pos (by linarith) (mul_pos hlam hSpos)
+      linarith
+
+/-- **computed orientation with a rounded root**, above the threshold: squared length within
+`13u` of 1 (oracle `16u`); times the computed norm it reproduces the field within one rounding -/
+theorem flOrientCell_exec (fl sq : K → K) (u atol : K) (h : FlOk fl u) (hq : SqrtOk sq u)
+    (hu : u ≤ 1 / 1024) (v : List K) (hlen : v.length ≤ 4) (h0 : 0 ≤ atol)
+    (hat : atol < flNormCell fl sq v) :
+    |sqLen (flOrientCell fl sq atol v) - 1| ≤ 13 * u ∧
+    ∀ a : Nat, |(flOrientCell fl sq atol v).getD a 0 * flNormCell fl sq v - v.getD a 0| ≤ u * |v.getD a 0| := by
+  obtain ⟨hn0, hnsq, hnz⟩ := flNormCell_exec h hq hu v hlen
+  have hu0 := h.1
+  have hnpos : 0 < flNormCell fl sq v := lt_of_le_of_lt h0 hat
+  have hS : sqLen v ≠ 0 := fun e => hnpos.ne' (hnz.mpr e)
+  have hSpos : 0 < sqLen v := lt_of_le_of_ne (sqLen_nonneg v) (Ne.symm hS)
+  have hcz : closeZero atol (flNormCell fl sq v) = false := by
+    rw [closeZero_eq, decide_eq_false_iff_not, not_le, abs_of_pos hnpos]; exact hat
+  have hf : flOrientCell fl sq atol v = v.map fun x => fl (x / flNormCell fl sq v) := by
+    unfold flOrientCell; rw [hcz]; rfl
+  rw [hf]
+  set n := flNormCell fl sq v with hn
+  constructor
+  · have key := sqLen_map_err (fun x => fl (x / n)) (1 / n) u hu0 v fun x _ => by
+      have e1 : 1 / n * x = x / n := by ring
+      rw [e1]; exact h.2 _
+    have hq1 := ratio_err hu0 hu hSpos hnpos hnsq
+    have e : 1 / n * (1 / n) * sqLen v = sqLen v / (n * n) := by field_simp
+    rw [e] at key
+    set q := sqLen v / (n * n) with hqdef
+    have hqb := abs_le.mp hq1
+    have hq0 : 0 ≤ q := div_nonneg hSpos.le (mul_pos hnpos hnpos).le
+    have hk2 : (2 * u + u * u) * q ≤ 11 / 4 * u := by nlinarith
+    have e2 : sqLen (v.map fun x => fl (x / n)) - 1 = (sqLen (v.map fun x => fl (x / n)) - q) + (q - 1) := by ring
+    rw [e2]
+    have := abs_add_le (sqLen (v.map fun x => fl (x / n)) - q) (q - 1)
+    linarith
+  · intro a
+    rw [getD_map_zero]
+    split
+    · exact quot_times_err h hnpos.ne' _
+    · rename_i hge
+      have : v.getD a 0 = 0 := by simp [List.getD_eq_getElem?_getD, not_lt.mp hge]
+      rw [this]; simp
+
+end Exec
+
+/-! ### … instantiated with the executable `fl64` / `sqrt64`: theorems about the very function the
+correspondence run compares bit for bit with NumPy, for every rational (so every binary64) input -/
+section Exec64
+
+/-- the executable correctly rounded root meets the root contract with `u = 2^-53` -/
+theorem sqrt64_sqrtOk : SqrtOk sqrt64 (1 / 9007199254740992) :=
+  ⟨fun x hx => sqrt64_sq_err x hx, sqrt64_nonpos⟩
+
+/-- **end to end for the bit-exact kernel**: for every rational cell of at most four components
+and every target, the numbers `fl_cells` computes (found bit-identical to NumPy's by the
+correspondence run, which records this per case) satisfy the property's promise with explicit slack `u = 2^-53`:
+zero cells stay zero; otherwise squared length within `15u` of `t²`, cross terms relatively
+below `17/4·u/(1−17/8·u)`, positive dot product for `t > 0`; the norm getter's square is
+within `10u` of `Σ v_c²` -/
+theorem exec64_setCell (v : List Rat) (t : Rat) (hlen : v.length ≤ 4) :
+    ((∀ x ∈ v, x = 0) → flSetCell fl64 sqrt64 v t = zeros v) ∧
+    (sqLen v ≠ 0 →
+      |sqLen (flSetCell fl64 sqrt64 v t) - t * t| ≤ 15 * (1 / 9007199254740992) * (t * t) ∧
+      (∀ a b : Nat, a < v.length →
+        |(flSetCell fl64 sqrt64 v t).getD a 0 * v.getD b 0 - (flSetCell fl64 sqrt64 v t).getD b 0 * v.getD a 0|
+          * (1 - 17 / 8 * (1 / 9007199254740992)) ≤
+          17 / 4 * (1 / 9007199254740992) * |(flSetCell fl64 sqrt64 v t).getD a 0 * v.getD b 0|) ∧
+      (0 < t → 0 < dot (flSetCell fl64 sqrt64 v t) v)) ∧
+    |flNormCell fl64 sqrt64 v * flNormCell fl64 sqrt64 v - sqLen v| ≤ 10 * (1 / 9007199254740992) * sqLen v := by
+  obtain ⟨h1, h2⟩ := flSetCell_exec fl64 sqrt64 _ fl64_flOk sqrt64_sqrtOk (by norm_num) v t hlen
+  exact ⟨h1, h2, (flNorm_exec fl64 sqrt64 _ fl64_flOk sqrt64_sqrtOk (by norm_num) v hlen).2.1⟩
+
+/-- … and the orientation the bit-exact kernel computes above the threshold has squared length
+within `13u` of 1 and reproduces the field, times the computed norm, within one rounding -/
+theorem exec64_orientCell (atol : Rat) (v : List Rat) (hlen : v.length ≤ 4) (h0 : 0 ≤ atol)
+    (hat : atol < flNormCell fl64 sqrt64 v) :
+    |sqLen (flOrientCell fl64 sqrt64 atol v) - 1| ≤ 13 * (1 / 9007199254740992) ∧
+    ∀ a : Nat, |(flOrientCell fl64 sqrt64 atol v).getD a 0 * flNormCell fl64 sqrt64 v - v.getD a 0| ≤
+      1 / 9007199254740992 * |v.getD a 0| :=
+  flOrientCell_exec fl64 sqrt64 _ atol fl64_flOk sqrt64_sqrtOk (by norm_num) v hlen h0 hat
+
+end Exec64
+
+example : atolDefault < flNormCell fl64 sqrt64 ([1, 1 / 3] : List Rat) := by decide +kernel
 
 end DFV.C15
